@@ -150,6 +150,7 @@ def check_decode(ctx: Ctx):
         ctx.check(digit_walks[0][1] == 0, "OR-FLOW", fo, "strings and ints are read digit by digit, MSB first", norm(digit_walks[0][0])[:60], f"`{norm(digit_walks[0][0])[:70]}` reads the string back to front: the reading arrives most significant digit first and every caller expects it in that order", digit_walks[0][0])
     dc = repo.func("qcircuit.qcircuitwrapper.QCircuitWrapper.decode_counts")
     ctx.check("self.decode_output(e)" in norm(dc.node) and "counts.items()" in norm(dc.node), "OR-FLOW", dc, "each counts key is decoded by decode_output", "", "", dc.node)
+    ctx.section(check_counts_threshold, ctx)
 
 
 def check_translate_argument(ctx: Ctx, fi: FuncInfo):
@@ -340,3 +341,52 @@ def check_add_qubit(ctx: Ctx, aq):
     v = norm(r.value).replace(" ", "")
     ok = ri is not None and ((ri > inc[0] and (v == f"{cnt}-1" or (v in old and v != cnt))) or (ri < inc[0] and v in old))
     ctx.check(ok, "MP-inputs-first", aq, "add_qubit returns the index it assigned", norm(r), f"`{norm(r)}` is not the index recorded for the new qubit", r)
+
+
+def check_counts_threshold(ctx: Ctx):
+    """MP-threshold: decode_counts sums the counts of all readings that decode to the same outcome and THEN drops the
+    outcomes below `discard_lower`.  Several raw readings decode to one outcome (the algorithms measure more qubits
+    than the decoded register), so a threshold applied to the raw readings drops an outcome whose readings are each
+    below it although their sum is not."""
+    dc = ctx.repo.func("qcircuit.qcircuitwrapper.QCircuitWrapper.decode_counts")
+    if len(dc.params) < 3:
+        raise AnchorError(dc.short, "decode_counts(self, counts, discard_lower) expected")
+    raw, thr = dc.params[1], dc.params[2]
+    role = "the threshold is applied to the summed counts of the decoded outcomes"
+    cmps = [c for c in ast.walk(dc.node) if isinstance(c, ast.Compare) and thr in q.names_in(c) and len(c.ops) == 1 and isinstance(c.ops[0], (ast.GtE, ast.Gt, ast.Lt, ast.LtE))]
+    if not cmps:
+        ctx.undecided(dc.short, f"MP-threshold [{role}]: no comparison with `{thr}` found")
+        return
+    pm = dc.pm
+    for c in cmps:
+        # the collection whose entries are compared: the iterable of the enclosing comprehension / filter / loop
+        node, src = c, None
+        while node in pm:
+            node = pm[node]
+            if isinstance(node, (ast.ListComp, ast.DictComp, ast.GeneratorExp, ast.SetComp)):
+                src = node.generators[0].iter
+                break
+            if isinstance(node, ast.Call) and isinstance(node.func, ast.Name) and node.func.id == "filter" and len(node.args) == 2:
+                src = node.args[1]
+                break
+            if isinstance(node, ast.For):
+                src = node.iter
+                break
+            if isinstance(node, (ast.FunctionDef, ast.AsyncFunctionDef)):
+                break
+        if src is None:
+            ctx.undecided(dc.short, f"MP-threshold [{role}]: `{norm(c)}` does not filter a collection the tables describe")
+            continue
+        base = src
+        while isinstance(base, ast.Call) and isinstance(base.func, ast.Attribute) and base.func.attr in ("items", "keys", "values", "copy"):
+            base = base.func.value
+        if isinstance(base, ast.Name) and base.id == raw:
+            # is `raw` still the parameter here, or has it been re-bound to the aggregate?
+            rebinds = [a for a in walk_no_nested(dc.node) if isinstance(a, ast.Assign) and any(isinstance(t, ast.Name) and t.id == raw for t in a.targets)]
+            from ..core import order_key
+
+            before = [a for a in rebinds if order_key(a) < order_key(c) and not q.contains(a, c)]
+            if not before:
+                ctx.fail("MP-threshold", dc, role, f"`{norm(c)}` filters `{norm(src)}`, the raw readings, before they are decoded and summed: readings that decode to the same outcome are each dropped when below `{thr}` although their total is not (the algorithms' outcome is split over the measured output/scratch qubits)", c)
+                continue
+        ctx.ok("MP-threshold", dc, role, f"`{norm(c)}` filters `{norm(src)[:40]}`", c)
